@@ -1345,5 +1345,54 @@ def HMemo.sound (env : Env) (m : HMemo) : Prop :=
 def memoAfter (env : Env) (ks : List HKey) : HMemo :=
   ks.foldl (fun m k => (callHelperMemo env m k.1 k.2).2) []
 
+/-! ## 12. First use: a `New` that hands a kept VM out through an unsynchronised variable
+
+  For comparison only (never the code's): the pool keeps the VM it built to validate the script
+  (VM 0) in a variable `first`, and `sync.Pool`'s `New` — run by every caller whose `Get` finds the
+  pool empty, on the caller's own goroutine, under no lock — is
+  `if p := first; p != nil { first = nil; return p }`: a load and a store, two steps of the
+  caller, with the other callers' steps free to fall between them.  The remaining steps are the
+  pool machine's (`sstep`). -/
+
+inductive FOp where
+  | load (c : Nat)            -- `p := first`
+  | take (c : Nat)            -- `first = nil; return p` — or a new VM when the load saw nil
+  | op (o : POp)              -- beginEval / finish / release / gc / acquire of an idle VM
+  deriving DecidableEq, Repr
+
+structure FState (ρ α σ : Type) where
+  s : SState ρ α σ
+  first : Option Nat                   -- the variable
+  seen : Nat → Option (Option Nat)     -- per caller: what its load saw, until it takes
+
+section FirstUse
+variable {ρ α σ : Type}
+
+/-- VM 0 exists (built with the pool) and sits in `first` -/
+def FState.init (s0 : σ) : FState ρ α σ :=
+  { s := { (SState.init s0 : SState ρ α σ) with base := { (PState.init : PState ρ α) with next := 1 } }
+    first := some 0
+    seen := fun _ => none }
+
+def fstep (f : σ → ρ → α × σ) (req : Nat → ρ) (st : FState ρ α σ) : FOp → FState ρ α σ
+  | .load c =>
+    match st.s.base.phase c, st.seen c with
+    | .idle, none => { st with seen := setAt st.seen c (some st.first) }
+    | _, _ => st
+  | .take c =>
+    match st.seen c with
+    | some (some v) =>
+      { s := { st.s with base := { st.s.base with phase := setPhase st.s.base.phase c (.acquired v) } }
+        first := none
+        seen := setAt st.seen c none }
+    | some none => { st with s := sstep f req st.s (.acquire c none), seen := setAt st.seen c none }
+    | none => st
+  | .op o => { st with s := sstep f req st.s o }
+
+def frun (f : σ → ρ → α × σ) (s0 : σ) (req : Nat → ρ) (ops : List FOp) : FState ρ α σ :=
+  ops.foldl (fstep f req) (FState.init s0)
+
+end FirstUse
+
 end C14
 end FwdVerif
